@@ -18,8 +18,8 @@ from hplsim import build, core, gen, seams
 PROP = 'C16'
 
 TIERS = {
-    'quick': dict(runs=16000, ops=(3, 10), wall=75, abort_rate=0.06),
-    'thorough': dict(runs=120000, ops=(3, 14), wall=1500, abort_rate=0.15),
+    'quick': dict(runs=16000, ops=(3, 10), wall=150, abort_rate=0.06),
+    'thorough': dict(runs=120000, ops=(3, 14), wall=2400, abort_rate=0.15),
 }
 
 ###############################################################################
@@ -546,6 +546,13 @@ def synth_donors():
 
 
 def _msg_types_variant(msg_types, op):
+    if (op['sel'] & 7) == 5:
+        # a type map as an introspection tool would produce it: topic names spelled with the leading
+        # slash toggled (`cmd_vel` <-> `/cmd_vel`), so that direct look-ups of the spec's names fail
+        out = {}
+        for k, v in msg_types.items():
+            out[k[1:] if k.startswith('/') else '/' + k] = v
+        return out
     if (op['sel'] & 3) in (1, 2):
         return msg_types
     part = make_partial_schema() if op['sel'] & 3 else make_constants_schema()
@@ -855,7 +862,7 @@ def worker(job):
     t0 = time.monotonic()
     prep()
     for idx in job['indices']:
-        if time.monotonic() - t0 > job['wall']:
+        if time.monotonic() > job['deadline']:  # one deadline for the whole batch (CLOCK_MONOTONIC is system-wide)
             stats['runs_skipped_for_time'] = stats.get('runs_skipped_for_time', 0) + 1
             continue
         seed = core.derive(job['master'], PROP, idx)
@@ -967,7 +974,7 @@ def main(argv):
     nruns = max(16, int(cfg['runs'] * scale))
     nproc = int(os.environ.get('HPLSIM_NPROC', '0')) or min(16, os.cpu_count() or 1)
     indices = list(range(args.offset, args.offset + nruns))
-    jobs = [{'cfg': cfg, 'indices': ch, 'master': master, 'wall': cfg['wall']} for ch in core.chunk(indices, nproc * 4)]
+    jobs = [{'cfg': cfg, 'indices': ch, 'master': master, 'deadline': time.monotonic() + cfg['wall']} for ch in core.chunk(indices, nproc * 4)]
     results = core.run_pool(worker, jobs, nproc=nproc, wall_cap=cfg['wall'] + 240)
     stats, found, samples, digests, shapes = {}, [], [], [], set()
     triples = set()
